@@ -13,7 +13,10 @@ func initConstantLookupNode() {
 		c,
 		"#init",
 		func(_ *vm.Thread, args []value.Value) (value.Value, value.Value) {
-			argLeft := args[1].MustReference().(ast.ExpressionNode)
+			var argLeft ast.ExpressionNode
+			if !args[1].IsNil() {
+				argLeft = args[1].MustReference().(ast.ExpressionNode)
+			}
 			argRight := args[2].MustReference().(ast.ComplexConstantNode)
 
 			var argLoc *position.Location
